@@ -14,9 +14,12 @@ import itertools
 
 import common
 
+from props import fbd
+
 ID = "C15"
-LEAN_MODULES = ["QProps.C15", "QProps.C15m"]
+LEAN_MODULES = ["QProps.C15", "QProps.C15m", *fbd.LEAN_MODULES_C15]
 THEOREMS = [
+    *fbd.THEOREMS_C15,
     "RunLoop.split_run_on",
     "RunLoop.split_many_on",
     "MM.mm_stable_upto",
@@ -613,4 +616,4 @@ class NoLoggerSplit(common.Suite):
 
 
 def suites(tier):
-    return [RunSplit(), NoLoggerSplit()]
+    return [RunSplit(), NoLoggerSplit(), fbd.SplitView()]
